@@ -227,6 +227,7 @@ package websocket
 //@ ensures [close-recorded] {C16} opcode == opClose && ghwr(c.bw).pos != old(ghwr(c.bw).pos) ==> c.closeSent
 //@ ensures [close-sent-monotone] {C16} old(c.closeSent) ==> c.closeSent
 //@ ensures [close-sent-only-by-close] {C16} opcode != opClose ==> c.closeSent == old(c.closeSent)
+//@ ensures [bounded-by-callers-context] {C10} gvcCalls("context.WithTimeout") == 1 && gvcCallArg[context.Context]("context.WithTimeout", 0) == ctx && gvcCalls("(*Conn).writeFrame") == 1 && gvcCallArg[context.Context]("(*Conn).writeFrame", 1) == gvcCallRes[context.Context]("context.WithTimeout", 0) && gvcCalls("context.CancelFunc") == 1
 
 //@ func (*Conn).writeClose
 //@ tags C06 C16 C02
@@ -238,6 +239,8 @@ package websocket
 //@ ensures [close-recorded] {C16} ghwr(c.bw).pos != old(ghwr(c.bw).pos) ==> c.closeSent
 //@ ensures [close-sent-monotone] {C16} old(c.closeSent) ==> c.closeSent
 //@ ensures [err-kind] !errIsCE(result)
+//@ ensures [payload-is-code-and-reason] {C06 C02} code != StatusNoStatusRcvd ==> gvcCalls("(CloseError).bytes") == 1 && gvcCallArg[CloseError]("(CloseError).bytes", 0) == CloseError{Code: code, Reason: reason} && (gvcCallRes[error]("(CloseError).bytes", 1) == nil ==> gvcCalls("(*Conn).writeControl") == 1 && gvcCallArg[opcode]("(*Conn).writeControl", 2) == opClose && gvcSameSlice(gvcCallArg[[]byte]("(*Conn).writeControl", 3), gvcCallRes[[]byte]("(CloseError).bytes", 0))) && (gvcCallRes[error]("(CloseError).bytes", 1) != nil ==> gvcCalls("(*Conn).writeControl") == 0)
+//@ ensures [no-status-is-empty-payload] {C06 C02} code == StatusNoStatusRcvd ==> gvcCalls("(CloseError).bytes") == 0 && gvcCalls("(*Conn).writeControl") == 1 && gvcCallArg[opcode]("(*Conn).writeControl", 2) == opClose && len(gvcCallArg[[]byte]("(*Conn).writeControl", 3)) == 0
 
 //@ func (*msgReader).close
 //@ tags C05 C07
@@ -288,6 +291,7 @@ package websocket
 //@ ensures [close-sent-monotone] {C16} old(c.closeSent) ==> c.closeSent
 //@ ensures [readmu-released-only-closed] {C05} !gvcHeld(c.readMu.ch) ==> gvcClosed(c.closed)
 //@ ensures [close-frame-is-close-error] {C06} c.closeReceived && !old(c.closeReceived) ==> h.opcode == opClose && errIsCE(err)
+//@ ensures [bounded-by-callers-context] {C10} gvcCalls("context.WithTimeout") <= 1 && (gvcCalls("context.WithTimeout") == 1 ==> gvcCallArg[context.Context]("context.WithTimeout", 0) == ctx && gvcCalls("context.CancelFunc") == 1) && (gvcCalls("(*Conn).readFramePayload") == 1 ==> gvcCallArg[context.Context]("(*Conn).readFramePayload", 1) == gvcCallRes[context.Context]("context.WithTimeout", 0)) && (gvcCalls("(*Conn).writeControl") == 1 ==> gvcCallArg[context.Context]("(*Conn).writeControl", 1) == gvcCallRes[context.Context]("context.WithTimeout", 0))
 //@ ensures [echo-same-code] {C06 C03} c.closeReceived && !old(c.closeReceived) ==> gvcCalls("(*Conn).writeClose") == 1 && gvcCallArg[StatusCode]("(*Conn).writeClose", 1) == errCECode(err) && gvcCallArg[string]("(*Conn).writeClose", 2) == errCEReason(err) && gvcCalls("(*Conn).close") == 1 && gvcCallSeq("(*Conn).close") > gvcCallSeq("(*Conn).writeClose")
 //@ ensures [violation-closes-1002] {C03} gvcCalls("(*Conn).writeError") >= 1 ==> gvcCallArg[StatusCode]("(*Conn).writeError", 1) == StatusProtocolError && err != nil && gvcCalls("(*Conn).writeError") == 1
 //@ ensures [oversize-or-fragmented-closes-1002] {C03} (h.payloadLength > 125 || !h.fin) ==> gvcCalls("(*Conn).writeError") == 1
@@ -484,6 +488,9 @@ package websocket
 //@ ensures [nil-iff-echo] {C06} result == nil ==> true
 //@ ensures [close-sent-monotone] {C16} old(c.closeSent) ==> c.closeSent
 //@ ensures [echo-is-success] {C06} result == nil || !errIsCE(result) || errCECode(result) != code
+//@ ensures [sends-code-and-reason] {C06} gvcCalls("(*Conn).writeClose") == 1 && gvcCallArg[StatusCode]("(*Conn).writeClose", 1) == code && gvcCallArg[string]("(*Conn).writeClose", 2) == reason
+//@ ensures [unsendable-returns-error] {C06} gvcCallRes[error]("(*Conn).writeClose", 0) != nil ==> result == gvcCallRes[error]("(*Conn).writeClose", 0) && gvcCalls("(*Conn).waitCloseHandshake") == 0
+//@ ensures [waits-for-echo] {C06} gvcCallRes[error]("(*Conn).writeClose", 0) == nil ==> gvcCalls("(*Conn).waitCloseHandshake") == 1 && (result == nil) == (errIsCE(gvcCallRes[error]("(*Conn).waitCloseHandshake", 0)) && errCECode(gvcCallRes[error]("(*Conn).waitCloseHandshake", 0)) == code)
 
 //@ func (*Conn).Close
 //@ tags C06 C20
@@ -493,6 +500,8 @@ package websocket
 //@ ensures [second-call] old(c.closing) ==> err != nil
 //@ ensures [second-call-is-errclosed] {C06} old(c.closing) ==> gvcCalls("(*Conn).waitGoroutines") == 1 && (gvcCallRes[error]("(*Conn).waitGoroutines", 0) == nil ==> errIs(err, net.ErrClosed))
 //@ ensures [closing] c.closing
+//@ ensures [handshake-carries-code-and-reason] {C06} !old(c.closing) ==> gvcCalls("(*Conn).closeHandshake") == 1 && gvcCallArg[StatusCode]("(*Conn).closeHandshake", 1) == code && gvcCallArg[string]("(*Conn).closeHandshake", 2) == reason && gvcCalls("(*Conn).close") == 1 && gvcCalls("(*Conn).waitGoroutines") == 1 && gvcCallSeq("(*Conn).closeHandshake") < gvcCallSeq("(*Conn).close") && gvcCallSeq("(*Conn).close") < gvcCallSeq("(*Conn).waitGoroutines")
+//@ ensures [second-call-does-nothing] {C06 C16} old(c.closing) ==> gvcCalls("(*Conn).closeHandshake") == 0 && gvcCalls("(*Conn).close") == 0
 //@ ensures [joined] {C20} err == nil ==> gvcClosed(c.timeoutLoopDone) && gvcClosed(c.closed) && (c.closeReadCtx != nil ==> gvcClosed(c.closeReadDone))
 //@ ensures [close-sent-monotone] {C16} old(c.closeSent) ==> c.closeSent
 //@ ensures [second-call-joined] {C20} old(c.closing) && errIs(err, net.ErrClosed) ==> gvcClosed(c.timeoutLoopDone) && (c.closeReadCtx != nil ==> gvcClosed(c.closeReadDone))
@@ -506,6 +515,7 @@ package websocket
 //@ ensures [second-call] old(c.closing) ==> err != nil
 //@ ensures [second-call-is-errclosed] {C06} old(c.closing) ==> gvcCalls("(*Conn).waitGoroutines") == 1 && (gvcCallRes[error]("(*Conn).waitGoroutines", 0) == nil ==> errIs(err, net.ErrClosed))
 //@ ensures [closing] c.closing
+//@ ensures [no-handshake] {C09 C06} gvcCalls("(*Conn).closeHandshake") == 0 && gvcCalls("(*Conn).writeClose") == 0 && (!old(c.closing) ==> gvcCalls("(*Conn).close") == 1 && gvcCalls("(*Conn).waitGoroutines") == 1 && gvcCallSeq("(*Conn).close") < gvcCallSeq("(*Conn).waitGoroutines"))
 //@ ensures [joined] {C20} err == nil ==> gvcClosed(c.timeoutLoopDone) && gvcClosed(c.closed) && (c.closeReadCtx != nil ==> gvcClosed(c.closeReadDone))
 //@ ensures [second-call-joined] {C20} old(c.closing) && errIs(err, net.ErrClosed) ==> gvcClosed(c.timeoutLoopDone) && (c.closeReadCtx != nil ==> gvcClosed(c.closeReadDone))
 
@@ -940,6 +950,9 @@ package websocket
 //@ ensures [ext-echo] {C14} err == nil && result0.copts != nil ==> ghhdr(specRespHeader(w)).vals["Sec-WebSocket-Extensions"] == specOptsHeader(result0.copts.clientNoContextTakeover, result0.copts.serverNoContextTakeover)
 //@ ensures [compression-only-if-enabled] {C14} err == nil && (opts == nil || opts.CompressionMode == CompressionDisabled) ==> result0.copts == nil
 //@ ensures [forbidden] {C12} specValidUpgrade(r) && !(opts != nil && opts.InsecureSkipVerify) && !specOriginAuthorised(r, specOriginPatterns(opts)) ==> err != nil && ghresp(w).status == 403 && !ghresp(w).hijacked
+//@ ensures [reinjects-buffered-bytes] {C11} err == nil ==> gvcCalls("(*bufio.Reader).Peek") == 1 && gvcCallArg[int]("(*bufio.Reader).Peek", 1) == gvcCallRes[int]("(*bufio.Reader).Buffered", 0) && gvcCallArg[*bufio.Reader]("(*bufio.Reader).Peek", 0) == gvcCallRes[*bufio.ReadWriter]("(http.Hijacker).Hijack", 1).Reader && gvcCallArg[*bufio.Reader]("(*bufio.Reader).Buffered", 0) == gvcCallRes[*bufio.ReadWriter]("(http.Hijacker).Hijack", 1).Reader && gvcCalls("bytes.NewReader") == 1 && gvcSameSlice(gvcCallArg[[]byte]("bytes.NewReader", 0), gvcCallRes[[]byte]("(*bufio.Reader).Peek", 0))
+//@ ensures [buffered-bytes-first] {C11} err == nil ==> gvcCalls("io.MultiReader") == 1 && len(gvcCallArg[[]io.Reader]("io.MultiReader", 0)) == 2 && gvcCallArg[[]io.Reader]("io.MultiReader", 0)[0] == io.Reader(gvcCallRes[*bytes.Reader]("bytes.NewReader", 0)) && gvcCallArg[[]io.Reader]("io.MultiReader", 0)[1] == io.Reader(gvcCallRes[net.Conn]("(http.Hijacker).Hijack", 0)) && gvcCalls("(*bufio.Reader).Reset") == 1 && gvcCallArg[io.Reader]("(*bufio.Reader).Reset", 1) == gvcCallRes[io.Reader]("io.MultiReader", 0) && gvcCallArg[*bufio.Reader]("(*bufio.Reader).Reset", 0) == gvcCallRes[*bufio.ReadWriter]("(http.Hijacker).Hijack", 1).Reader && gvcCallSeq("(*bufio.Reader).Reset") > gvcCallSeq("(*bufio.Reader).Peek")
+//@ ensures [conn-over-hijacked-transport] {C11} err == nil ==> result0.rwc == io.ReadWriteCloser(gvcCallRes[net.Conn]("(http.Hijacker).Hijack", 0)) && result0.br == gvcCallRes[*bufio.ReadWriter]("(http.Hijacker).Hijack", 1).Reader && result0.bw == gvcCallRes[*bufio.ReadWriter]("(http.Hijacker).Hijack", 1).Writer && !result0.client
 // ---------------------------------------------------------------------------
 // dial.go: opening handshake, client side (C13 request side)
 
